@@ -109,7 +109,7 @@ def build_pool(fam, rng):
             pool.append(('mixed', D.render_doc(D.gen_fx(rng), fam, prefixes=prefixes), None))
             pool.append(('mixed', D.render_doc(D.gen_fx(rng), fam, prefixes=prefixes), None))
         elif fam == 'poly':
-            for f in ('dup_key', 'dangling_keyref'):
+            for f in ('dup_key', 'dangling_keyref', 'dup_shelf', 'loose_only'):
                 d2 = D.gen_poly(rng, f)
                 pool.append((f, D.render_doc(d2, fam, prefixes=prefixes), d2))
         else:
